@@ -326,10 +326,19 @@ def run(repo: Repo, rep: Report, tier: str) -> None:
     # The post-processor (import sorting) looks at the tree a file sits in: whether `apis` is a local package decides where
     # `from apis.client...` is grouped.  If direct generation creates the ancestor __init__.py files, compare-only generation must create
     # them below its temporary root as well, otherwise an unchanged nested package compares unequal.
-    def init_loops(body) -> List[ast.While]:
+    def _is_init_loop(w: ast.AST) -> bool:
+        return isinstance(w, ast.While) and any(isinstance(x, ast.Constant) and x.value == "__init__.py" for x in ast.walk(w)) and any(
+            isinstance(c, ast.Call) and isinstance(c.func, ast.Attribute) and c.func.attr in ("write_text", "touch", "write_file") for c in ast.walk(w))
+
+    gcls9 = gen.module.classes.get(gen.qualname.split(".")[0]) if "." in gen.qualname else None
+    init_helpers = {hn for hn, hf in (gcls9.methods.items() if gcls9 is not None else []) if hf is not gen and any(_is_init_loop(w) for w in ast.walk(hf.node))}
+
+    def init_loops(body) -> List[ast.AST]:
         out = []
         for st in body:
             for w in ast.walk(st):
+                if isinstance(w, ast.Call) and isinstance(w.func, ast.Attribute) and w.func.attr in init_helpers:
+                    out.append(w)  # the loop lives in a helper of the class
                 if isinstance(w, ast.While) and any(isinstance(x, ast.Constant) and x.value == "__init__.py" for x in ast.walk(w)) and any(
                         isinstance(c, ast.Call) and isinstance(c.func, ast.Attribute) and c.func.attr in ("write_text", "touch", "write_file") for c in ast.walk(w)):
                     out.append(w)
